@@ -557,7 +557,7 @@ def _invariances(ctx):
                 mask = _sym_mask(mask, rots)
             R = np.stack([rots[int(i)][2] for i in rng.permutation(len(rots))[:2]])
         # every score meets every scale (small absolute intensities move windows towards the eps guard)
-        c1 = [0.5, 2.0, 1e-3, 100.0, 7.0, 1e-6, 3e3][(it // 5) % 7]
+        c1 = [0.5, 1e-8, 2.0, 1e-3, 100.0, 7.0, 1e-6, 3e3][(it // 5) % 8]     # (1e-8: spread below float32 eps, far above underflow)
         c2 = [1e-4, 3.0, 1e3, 0.25, 50.0][(it // 5) % 5]
         off = float([-3.0, 400.0, 1.0, -2000.0, 20.0][(it // 5 + it) % 5])   # incl. offsets of hundreds of template deviations
         base, _, _, _ = _scan(score, target, template, mask, tmask, R, double)
@@ -658,7 +658,7 @@ def _planted(ctx):
         if vclass == "float":
             # every score meets every scale in both precisions (blocks of five iterations = one per score; precision alternates per block)
             c_t = [1.0, 1e-6, 1e-3, 1e3, 50.0][(it // 10) % 5]
-            c_g = [1e-3, 1.0, 1e3, 7.0, 1e-6][(it // 10) % 5]
+            c_g = [1e-3, 1e-9, 1.0, 1e3, 7.0, 1e-6][(it // 10) % 6]
         # rotations spread over inner jobs and merged; the number of rotations (1..6) is often not a multiple of the number of jobs
         # and sometimes smaller.  Equal job counts come in blocks: every change of the count restarts the worker pool (~2 s).
         njobs = [1, 2, 2, 1, 3, 3, 1, 4, 4, 1, 1, 1][(it // 5) % 12]
